@@ -238,9 +238,7 @@ def h_lagrange(ctx, cfg):
   pairs = list(zip(xs, ys))
   f = lagrange.func(pairs)
   L = lagrange.poly(pairs)
-  if n == 1 and not isinstance(L, Poly):
-    L = Poly(L)        # one point: the interpolator is the constant y0 (a bare number)
-  ctx.prove(isinstance(L, Poly), "lagrange-poly-type")
+  ctx.prove(isinstance(L, Poly), "lagrange-poly-type", "lagrange.poly of %d point(s) is a %s" % (n, type(L).__name__))
   k = ctx.real("k")
   for i in range(n):
     ctx.prove(ctx.eq(f(xs[i]), ys[i]), "lagrange-func-through-points", "i=%d" % i)
